@@ -6,3 +6,5 @@ import IsoVerif.Model.PicoSpec
 import IsoVerif.Lemmas.PicoBasic
 import IsoVerif.Lemmas.PicoStage1
 import IsoVerif.Lemmas.PicoRerun
+import IsoVerif.Lemmas.PicoSem
+import IsoVerif.Lemmas.PicoStage2
